@@ -28,6 +28,13 @@ namespace glm { namespace detail {
 #include <glm/mat4x3.hpp>
 #include <glm/mat4x4.hpp>
 #include <glm/ext/quaternion_float.hpp>
+#include <glm/common.hpp>
+// scalar mix(x, y, bool): GLM specialises compute_mix<T, bool>; the traced comparison type is SymBool
+namespace glm { namespace detail {
+	template<vt::Kind K> struct compute_mix<vt::Sym<K>, vt::SymBool> {
+		GLM_FUNC_QUALIFIER static vt::Sym<K> call(vt::Sym<K> const& x, vt::Sym<K> const& y, vt::SymBool const& a) { return a ? y : x; }
+	};
+}}
 #include <sstream>
 #include <memory>
 
@@ -102,13 +109,13 @@ template<class S> struct Ctx;
 template<> struct Ctx<TraceFam> : CtxBase {
 	typedef TraceFam S;
 	template<class T> T in(int arg, int comp) { Kind k = kind_of<T>::value; return T(G().mk(VAR, k, (uint32_t)arg, (uint32_t)comp), typename T::Raw()); }
-	template<Kind K> void out(Sym<K> x) { outs.push_back(OutRec{true, x.id, Val{K, 0}}); }
-	void out(SymBool b) { outs.push_back(OutRec{true, b.id, Val{KB, 0}}); }
-	void out(bool b) { outs.push_back(OutRec{true, G().mk(CST, KB, 0, 0, 0, b ? 1 : 0), Val{KB, 0}}); }
-	void out(int v) { outs.push_back(OutRec{true, G().mk(CST, I32, 0, 0, 0, to_bits<int32_t>(v)), Val{I32, 0}}); }
-	void out(unsigned v) { outs.push_back(OutRec{true, G().mk(CST, U32, 0, 0, 0, to_bits<uint32_t>(v)), Val{U32, 0}}); }
-	void out(long v) { outs.push_back(OutRec{true, G().mk(CST, I64, 0, 0, 0, to_bits<int64_t>(v)), Val{I64, 0}}); }
-	void out(unsigned long v) { outs.push_back(OutRec{true, G().mk(CST, U64, 0, 0, 0, to_bits<uint64_t>(v)), Val{U64, 0}}); }
+	template<Kind K> void out(Sym<K> x) { outs.push_back(OutRec{true, G().undo(x.id), Val{K, 0}}); }
+	void out(SymBool b) { outs.push_back(OutRec{true, G().undo(b.id), Val{KB, 0}}); }
+	void out(bool b) { outs.push_back(OutRec{true, G().undo(G().mk(CST, KB, 0, 0, 0, b ? 1 : 0)), Val{KB, 0}}); }
+	void out(int v) { outs.push_back(OutRec{true, G().undo(G().mk(CST, I32, 0, 0, 0, to_bits<int32_t>(v))), Val{I32, 0}}); }
+	void out(unsigned v) { outs.push_back(OutRec{true, G().undo(G().mk(CST, U32, 0, 0, 0, to_bits<uint32_t>(v))), Val{U32, 0}}); }
+	void out(long v) { outs.push_back(OutRec{true, G().undo(G().mk(CST, I64, 0, 0, 0, to_bits<int64_t>(v))), Val{I64, 0}}); }
+	void out(unsigned long v) { outs.push_back(OutRec{true, G().undo(G().mk(CST, U64, 0, 0, 0, to_bits<uint64_t>(v))), Val{U64, 0}}); }
 };
 template<> struct Ctx<ConcFam> : CtxBase {
 	typedef ConcFam S;
@@ -316,6 +323,30 @@ struct Printer {
 	}
 };
 
+// structural size (as a tree, saturating) and hash of the DAG below a node, memoised
+struct Measure {
+	std::vector<Node> const& nodes; std::vector<uint64_t> sz, hs; std::vector<uint8_t> done;
+	Measure(std::vector<Node> const& n) : nodes(n), sz(n.size(), 0), hs(n.size(), 0), done(n.size(), 0) {}
+	void go(uint32_t id) {
+		if (done[id]) return; Node const& n = nodes[id]; uint64_t s = 1, h = 1469598103934665603ull;
+		auto mix = [&](uint64_t v) { h ^= v; h *= 1099511628211ull; h ^= h >> 29; };
+		mix(n.op); mix(n.k); mix(n.k2); mix(n.bits);
+		if (n.op == VAR) { mix(n.a); mix(n.b); }
+		else if (n.op != CST) {
+			int ar = (op_is_binary(n.op) || op_is_cmp(n.op) || n.op == LAND || n.op == LOR) ? 2 : (n.op == FMA ? 3 : 1);
+			uint32_t ch[3] = {n.a, n.b, n.c};
+			for (int i = 0; i < ar; ++i) { go(ch[i]); s += sz[ch[i]]; if (s > (1ull << 40)) s = 1ull << 40; mix(hs[ch[i]]); }
+		}
+		sz[id] = s; hs[id] = h; done[id] = 1;
+	}
+	void tree(Tree const& t, uint64_t& s, uint64_t& h) {
+		auto mix = [&](uint64_t v) { h ^= v; h *= 1099511628211ull; h ^= h >> 29; };
+		mix(t.kind);
+		if (t.kind == 1) { go(t.cond); s += sz[t.cond]; mix(hs[t.cond]); tree(*t.t, s, h); tree(*t.f, s, h); }
+		else if (t.kind == 0) { for (uint32_t p : t.pre) { go(p); s += sz[p]; mix(hs[p]); } mix(77); for (uint32_t o : t.outs) { go(o); s += sz[o]; mix(hs[o]); } }
+	}
+};
+
 struct RunStats { int entries = 0, aborted = 0, paths = 0, trials = 0, skipped_pre = 0, skipped_undef = 0, mismatches = 0; size_t nodes = 0; };
 
 // evaluate a decision tree on concrete inputs
@@ -333,7 +364,7 @@ inline int run_all(char const* module_comment, std::ostream& out, std::ostream& 
 		while (more) {
 			g.reset_path();
 			Ctx<TraceFam> c; PathRes pr;
-			try { e.tr(c); for (auto const& o : c.outs) { if (o.node >= g.nodes.size()) throw Untraceable("uninitialised value returned"); pr.outs.push_back(o.node); } }
+			try { e.tr(c); for (auto const& o : c.outs) pr.outs.push_back(o.node); }
 			catch (Untraceable const& u) { pr.abort = u.what(); }
 			pr.dec = g.path; pr.pre = g.pre;
 			paths.push_back(pr);
@@ -358,7 +389,7 @@ inline int run_all(char const* module_comment, std::ostream& out, std::ostream& 
 			if (I.undefined) { ++st.skipped_undef; continue; }
 			e.cc(cc); ++st.trials;
 			bool ok = cc.outs.size() == mv.size();
-			for (size_t i = 0; ok && i < mv.size(); ++i) ok = bits_equal(cc.outs[i].val.k, cc.outs[i].val.bits, mv[i]) && cc.outs[i].val.k == g.nodes[leaf->outs[i]].k;
+			for (size_t i = 0; ok && i < mv.size(); ++i) { Node const& on = g.nodes[leaf->outs[i]]; Kind rk = (op_is_cmp(on.op) || on.op == ISNAN || on.op == ISINF || on.op == LNOT || on.op == LAND || on.op == LOR) ? KB : on.k; ok = bits_equal(cc.outs[i].val.k, cc.outs[i].val.bits, mv[i]) && cc.outs[i].val.k == rk; }
 			if (!ok) {
 				++st.mismatches;
 				log << "MISMATCH " << e.name << " flavour=" << fl << " trial=" << t << " seed=" << seed << " impl=[";
@@ -367,6 +398,10 @@ inline int run_all(char const* module_comment, std::ostream& out, std::ostream& 
 		}
 		out << "Definition t_" << e.name << " : tree :=\n  ";
 		Printer P(g.nodes, out);
+		{ // entries whose expression tree (without sharing) is too large to hand to Coq are summarised by a structural hash
+			Measure M(g.nodes); uint64_t tsz = 0, th = 1469598103934665603ull; if (tree->kind != 2) M.tree(*tree, tsz, th);
+			if (tsz > 150000) { char buf[64]; std::snprintf(buf, sizeof buf, "large:%016llx", (unsigned long long)th); tree.reset(new Tree()); tree->kind = 2; tree->why = buf; log << "LARGE " << e.name << " size=" << tsz << " hash=" << buf << "\n"; }
+		}
 		try { P.tree(*tree); } catch (Untraceable const& u) { out << "(Abort \"" << u.what() << "\")"; log << "ABORT " << e.name << " : " << u.what() << "\n"; ++st.aborted; }
 		out << ".\n\n";
 		names.push_back(e.name);
